@@ -15,7 +15,8 @@ TRUSTED = [
 ASSUMPTIONS = ["outputs contain no NUL byte (environment values cannot hold one) and, where a later command inlines {{.Output}} into a single-quoted shell word, no single quote",
                "exported names of the stages of one generated pipeline are pairwise distinct"]
 
-ALPHA = [10, 10, 13, 9, 32, 32, 65, 97, 122, 48, 34, 92, 36, 37, 96, 123, 125, 0x7E, (0xC3, 0xA9), (0xE2, 0x9C, 0x93)]
+ALPHA = [10, 10, 13, 9, 32, 32, 65, 97, 122, 48, 34, 92, 36, 37, 96, 123, 125, 0x7E, (0xC3, 0xA9), (0xE2, 0x9C, 0x93),
+         (27, 91, 51, 49, 109), (27, 91, 48, 109)]          # ... and colour escape sequences (the decorators may strip them on screen, never in the capture)
 DUMP = "$(env -0 | od -An -v -tx1 | tr -d ' \\n')"
 PREV = "$(printf '%s' '{{.Output}}' | od -An -v -tx1 | tr -d ' \\n')"
 
@@ -159,8 +160,9 @@ def gen_cases(ctx):
 def to_engine(ctx, c):
     if c["type"] == "prod":
         t = mk_task(c["name"], c["export_as"], c["jobs"], c["allow"], c["novar"])
+        # the output format is presentation only: the capture is the same under raw and prefixed
         return {"id": c["id"], "dir": ctx.workdir, "tasks": [t, CONSUMER],
-                "plan": [{"op": "run", "tasks": [1]}, {"op": "run", "tasks": [0]}, {"op": "run", "tasks": [1]}], "format": "raw"}
+                "plan": [{"op": "run", "tasks": [1]}, {"op": "run", "tasks": [0]}, {"op": "run", "tasks": [1]}], "format": ["raw", "prefixed"][c["id"] % 2]}
     order = c["order"]
     pos = {k: i for i, k in enumerate(order)}      # stage k is declared at position pos[k]
     tasks = [CONSUMER]
@@ -169,7 +171,7 @@ def to_engine(ctx, c):
         s = c["stages"][k]
         tasks.append(mk_task(s["name"], s["export_as"], s["jobs"], False, s["novar"], dump_first=str(k)))
         est.append({"task": len(tasks) - 1, "deps": [pos[d] for d in s["deps"]], "allow": s["stage_allow"]})
-    return {"id": c["id"], "dir": ctx.workdir, "tasks": tasks, "plan": [{"op": "run", "tasks": [0]}, {"op": "pipeline", "stages": est}], "format": "raw"}
+    return {"id": c["id"], "dir": ctx.workdir, "tasks": tasks, "plan": [{"op": "run", "tasks": [0]}, {"op": "pipeline", "stages": est}], "format": ["raw", "prefixed"][c["id"] % 2]}
 
 
 def parse_env(hexs):
